@@ -215,6 +215,8 @@ func (p *Program) Run(o RunOpts) (obs Observed) {
 		log = append(log, e)
 		return "‹" + id + "›"
 	})
+	vars.Set("panicstr", func() string { panic("a plain string as panic value") })
+	vars.Set("panicval", func() string { panic(panicValue{}) })
 	ntok := 0
 	vars.SetFunc("sp", func(a jet.Arguments) reflect.Value {
 		id, kind := fmt.Sprint(a.Get(0).Interface()), fmt.Sprint(a.Get(1).Interface())
@@ -244,7 +246,7 @@ func (p *Program) Run(o RunOpts) (obs Observed) {
 		obs.ProbeLog = log
 		obs.VarsAfter = map[string]string{}
 		for k, v := range vars {
-			if k == "probe" || k == "sp" {
+			if k == "probe" || k == "sp" || k == "panicstr" || k == "panicval" {
 				continue
 			}
 			if _, extra := o.ExtraVars[k]; extra {
@@ -272,6 +274,11 @@ func (p *Program) Run(o RunOpts) (obs Observed) {
 	obs.Out = b.String()
 	return
 }
+
+// panicValue is a panic value that is neither an error nor a string.
+type panicValue struct{}
+
+func (panicValue) String() string { return "a Stringer as panic value" }
 
 func renderGo(x interface{}) string {
 	switch x := x.(type) {
